@@ -348,12 +348,12 @@ UNITS['U04d'] = dict(
 
 UNITS['U43n'] = dict(
     kind='native', crate='kani/U43n', bin='vx_u43n', needs_lock=True, timeout_s=900,
-    pool='3 rows: every index triple over a 3-entry dictionary and every presence pattern (dictionary string columns, with and without NULLs); stored bytes over {0, 1, 7, 255}^3, offsets {0, -3, 1000, i64::MIN/4}, delta on/off, every presence pattern (all eight entries of the narrow-integer codec table); the same with an LZ4-compressed u16 payload over {0, 1, 300, 65535}^3 (Codec::with_lz4 op list, slice); packed string columns over five strings (empty, short, 45 and 300 bytes), plain and LZ4-compressed',
+    pool='3 rows: every index triple over a 3-entry dictionary and every presence pattern (dictionary string columns, with and without NULLs); stored bytes over {0, 1, 7, 255}^3, offsets {0, -3, 1000, i64::MIN/4}, delta on/off, every presence pattern (all eight entries of the narrow-integer codec table); the same with an LZ4-compressed u16 payload over {0, 1, 300, 65535}^3 (Codec::with_lz4 op list, slice); packed string columns over five strings (empty, short, 45 and 300 bytes), plain and LZ4-compressed; 64-bit integer columns over {0, -1, i64::MAX/2, i64::MIN/2+7}^3 with delta on/off and float columns over {0.0, -0.0, 1.5, NaN, -inf}^3, both with every presence pattern, built by the match expressions of IntegerColumn::new_boxed / FloatColumn::new_boxed (slices)',
     title='BOUNDED exhaustive enumeration (native, not a proof): the free fn column::decode (whole fn, the stack machine compaction reads stored columns with) on the codecs the ingestion side builds - dictionary string columns (dict_codec item + presence attachment slice of fast_build_string_column) and every entry of the narrow-integer codec table (slice of IntegerColumn::create_col): NULL stays NULL, values stay values',
     assumptions=['R10: `dyn Data` reduced to the accessors decode calls; Vec<T> / NullableVec<T> implement them as the real ones do (cast_ref_<t> gives the payload also of a nullable vector, get_type is the nullable type, make_nullable pairs payload and bitmap, slice_box(0, len) is the whole vector); Codec reduced to its op list',
                  'mem_store/lz4.rs is the real module over the lz4_flex crate (#[path] include), PackedStrings / StringPackerIterator are real items of stringpack.rs; pco is a stand-in that must not be reached',
                  'the same harnesses as Kani proofs (symbolic values, 2 rows) did not finish in 15 min each - dynamic dispatch over dyn Data; hence a native enumeration over a stated pool (bounded stand-in, reported under coverage.bounded)'],
-    not_covered=['columns outside the pool', 'Pco-compressed sections, UnhexpackStrings (known finding of U04d)', 'u32 payloads (element arms are U04d)', 'float columns (their codec is PushDataSection + Nullable only)', 'the compaction loop around decode'])
+    not_covered=['columns outside the pool', 'Pco-compressed sections, UnhexpackStrings (known finding of U04d)', 'u32 payloads (element arms are U04d)', 'the compaction loop around decode'])
 
 UNITS['U22k'] = dict(
     kind='kani', crate='kani/U22', timeout_s=700, mem_gb=12, jobs=2,
